@@ -3,7 +3,8 @@
 From Coq Require Import ZArith QArith List Bool Ring Permutation.
 From Coq Require String.
 From PV Require Import C18.RegisterModel C18.RegisterProofs C18.PrepModel C18.PrepProofs
-  C18.BlackbirdModel C18.BlackbirdGen C18.BlackbirdProofs C18.CodeModel C18.CodeProofs.
+  C18.BlackbirdModel C18.BlackbirdGen C18.BlackbirdProofs C18.CodeModel C18.CodeProofs
+  C18.TokenModel C18.TokenProofs.
 Import ListNotations.
 
 (* ---- nesting: for every depth, every chain of registers (empty ones included) and every
@@ -136,6 +137,44 @@ Theorem C18_simulator_code_roundtrip : forall (d : option Z) (a : cfg_args),
 Proof. exact simulator_code_roundtrip. Qed.
 Print Assumptions C18_simulator_code_roundtrip.
 
+(* ---- the text layer: instruction / program code as token lists (what Python's tokenizer yields
+   for the emitted text).  F is the type of floats; the hypothesis is float(repr(x)) = x, split at
+   the sign because `-0.3` is two tokens. *)
+Section Tokens.
+Variable F : Type.
+Variables (fneg fabs : F -> F) (fis_neg : F -> bool).
+Hypothesis float_repr_roundtrip : forall f, fis_neg f = true -> fneg (fabs f) = f.
+
+(* every value of the rendered-exactly domain (ints, bools, floats, nested tuples/lists, arrays
+   with or without dtype) is read back from its rendering, whatever follows it *)
+Theorem C18_code_value_roundtrip : forall (v : pval F) n rest,
+  (depth F v <= n)%nat ->
+  parse F fneg n (render F fabs fis_neg v ++ rest) = Some (v, rest).
+Proof. exact (value_roundtrip F fneg fabs fis_neg float_repr_roundtrip). Qed.
+
+(* every unconditioned instruction: class, modes, keyword names/order and values come back *)
+Theorem C18_code_instr_roundtrip : forall (i : cinstr F) rest,
+  ci_cond F i = false ->
+  exists ts, instr_tokens F fabs fis_neg i = Some ts /\
+             read_instr F fneg (ts ++ rest) = Some (i, rest).
+Proof. exact (instr_roundtrip F fneg fabs fis_neg float_repr_roundtrip). Qed.
+
+(* _as_code refuses exactly the instructions that carry a .when(...) condition *)
+Theorem C18_code_conditioned_refused_iff : forall i : cinstr F,
+  instr_tokens F fabs fis_neg i = None <-> ci_cond F i = true.
+Proof. exact (instr_tokens_refused_iff F fabs fis_neg). Qed.
+
+(* every program of unconditioned instructions (the empty one included: `pass`) *)
+Theorem C18_code_program_roundtrip : forall p : list (cinstr F),
+  Forall (fun i => ci_cond F i = false) p ->
+  exists ts, program_tokens F fabs fis_neg p = Some ts /\ read_program F fneg ts = Some p.
+Proof. exact (program_roundtrip F fneg fabs fis_neg float_repr_roundtrip). Qed.
+End Tokens.
+Print Assumptions C18_code_value_roundtrip.
+Print Assumptions C18_code_instr_roundtrip.
+Print Assumptions C18_code_conditioned_refused_iff.
+Print Assumptions C18_code_program_roundtrip.
+
 (* ---- non-vacuity *)
 Example C18_example_nest :
   (* Squeezing on mode 1 and a gate on (2,0) inside Q(4,5,6), then inside Q(3,2,1,0,9,8,7) *)
@@ -150,3 +189,6 @@ Example C18_example_repaired_alias :
   exists h' r, evalZ false [NS [1%Z] 1%Z] (Add (Mul (Leaf 0%nat) 2%Z) (Mul (Leaf 0%nat) 3%Z)) = Some (h', r) /\
                nth_error h' r = Some (NS [1%Z] 5%Z) /\ nth_error h' 0%nat = Some (NS [1%Z] 1%Z).
 Proof. exact repaired_alias_example. Qed.
+
+Example C18_example_tokens : example_tokens_statement.
+Proof. exact example_tokens. Qed.
